@@ -709,6 +709,10 @@ const FUNCS: &[(&str, &str, &str)] = &[
     ("shortcircuitBinop", "src/mir/lower.rs", "shortcircuit_binop"),
     ("desugaredBinop", "src/mir/lower.rs", "desugared_binop"),
     ("binopStr", "src/mir/lower.rs", "binop_str"),
+    ("binopList", "src/mir/lower.rs", "binop_list"),
+    ("binopIpAddr", "src/mir/lower.rs", "binop_ip_addr"),
+    ("binopAnd", "src/mir/lower.rs", "binop_and"),
+    ("binopOr", "src/mir/lower.rs", "binop_or"),
     ("callRuntime", "src/mir/lower.rs", "call_runtime"),
     ("compoundAssign", "src/mir/lower.rs", "compound_assign"),
     ("assign", "src/mir/lower.rs", "assign"),
